@@ -232,252 +232,180 @@ end NfcVerif.Retry
 
 namespace NfcVerif.Retry
 
-/-! ## command programs -/
+/-! ## ISO-DEP exchange -/
 
-/-- outcome allowed by the property: a value or a TagCommandError -/
-def Documented : Outcome → Prop
-  | .ok _ => True
-  | .exc e => ∃ m, e = .tagCmd m
+theorem depFail_cases (cfg : Cfg) (budget i : Nat) (f : Fault) :
+    (depFail cfg budget i f = none ∧ i ≤ budget ∧ (f = .timeout ∨ f = .transmission)) ∨
+    (∃ m, depFail cfg budget i f = some (.tagCmd m)) ∨
+    (cfg.fixT4 = false ∧ depFail cfg budget i f = some f.exc) := by
+  unfold depFail
+  cases f with
+  | protocol => right; left; exact ⟨_, rfl⟩
+  | timeout =>
+    by_cases h : i ≤ budget
+    · left; simp [h]
+    · right; left; simp [h]
+  | transmission =>
+    by_cases h : i ≤ budget
+    · left; simp [h]
+    · right; left; simp [h]
+  | brokenLink =>
+    cases hc : cfg.fixT4
+    · right; right; simp
+    · right; left; simp
+  | base =>
+    cases hc : cfg.fixT4
+    · right; right; simp
+    · right; left; simp
 
-/-- kinds of primitive covered here: the retry loops of Type 1/2 and Type 3 -/
-def LoopKind (k : PrimKind) : Prop := k = .t12 ∨ k = .t3
+/-- what `depDone` returns -/
+theorem depDone_spec (c : Cmd) (a : Ans) (w : World) (acc) :
+    (∀ e, (depDone c a w acc).1 = .error e → ∃ m, e = .tagCmd m) ∧ (depDone c a w acc).2 = w.push c acc := by
+  unfold depDone; cases a <;> simp
 
-/-- a program over primitives of kinds `S` that raises nothing but TagCommandError by itself -/
-def Clean (S : PrimKind → Prop) : Prog → Prop
-  | .ret _ => True
-  | .crash e => ∃ m, e = .tagCmd m
-  | .reraise => True
-  | .caseErr z n p => Clean S (z ()) ∧ Clean S (n ()) ∧ Clean S (p ())
-  | .call p _ _ _ ok err => S p.kind ∧ 0 < p.budget ∧ p.budget ≤ 3 ∧ Clean S (ok ()) ∧ Clean S (err ())
-
-def PolClean (S : PrimKind → Prop) : Pol → Prop
-  | .goto p => Clean S (p ())
-  | _ => True
-
-theorem prim_safe (p : Prim) (c : Cmd) (a : Ans) (w : World) (hk : LoopKind p.kind) (hb : 0 < p.budget)
-    (hs : p.kind = .t3 ∨ Benign w) :
-    (∀ e, (prim Cfg.repaired p c a w).1 = .error e → ∃ m, e = .tagCmd m)
-    ∧ (Benign w → Benign (prim Cfg.repaired p c a w).2) := by
-  unfold prim
-  rcases hk with h | h
-  · rw [h]; simp only []
-    rw [h] at hs
-    exact loop_safe .t12 p.idm c a p.budget none [] w (fun h0 => by omega) (hs.imp (by intro h; cases h) id)
-  · rw [h]; simp only []
-    exact loop_safe .t3 p.idm c a p.budget none [] w (fun h0 => by omega) (Or.inl rfl)
-
-/-- **a clean program ends with a value or a TagCommandError**: for every fault script when all
-its primitives are Type 3 ones (`t3only`), otherwise for every script of the three known classes -/
-theorem run_documented (S : PrimKind → Prop) (hS : ∀ k, S k → LoopKind k) (t3only : Prop)
-    (h3 : t3only → ∀ k, S k → k = .t3) :
-    ∀ (P : Prog) (cur : Int) (w : World), Clean S P → (t3only ∨ Benign w) →
-    Documented (run Cfg.repaired P cur w).1 := by
-  intro P
-  induction P with
-  | ret v => intro cur w _ _; simp [run, Documented]
-  | crash e => intro cur w hc _; simp only [run, Documented]; exact hc
-  | reraise => intro cur w _ _; simp [run, Documented]
-  | caseErr z n p ihz ihn ihp =>
-    intro cur w hc hw
-    obtain ⟨hz, hn, hp⟩ := hc
-    unfold run
-    split
-    · exact ihz () cur w hz hw
-    · split
-      · exact ihn () cur w hn hw
-      · exact ihp () cur w hp hw
-  | call p c a ct ok err ihok iherr =>
-    intro cur w hc hw
-    obtain ⟨hk, hb, _, hok, herr⟩ := hc
-    have hs : p.kind = .t3 ∨ Benign w := by
-      rcases hw with h | h
-      · exact Or.inl (h3 h _ hk)
-      · exact Or.inr h
-    have hps := prim_safe p c a w (hS _ hk) hb hs
-    have hw' : t3only ∨ Benign (prim Cfg.repaired p c a w).2 := by
-      rcases hw with h | h
-      · exact Or.inl h
-      · exact Or.inr (hps.2 h)
-    unfold run
-    generalize hr : prim Cfg.repaired p c a w = r at hps hw'
-    obtain ⟨res, w'⟩ := r
-    cases res with
-    | ok u => exact ihok () cur w' hok hw'
-    | error e =>
-      obtain ⟨m, hm⟩ := hps.1 e rfl
+/-- **ISO-DEP exchange**: started with frame number `i` (`acc` holds the `i-1` earlier frames) and
+`fuel + i = budget + 4` the loop never runs out of fuel, sends at most `budget + 2` frames in
+total, appends one invocation to the log and raises TagCommandError or - as found only - the
+unknown CommunicationError itself. -/
+theorem dep_spec (cfg : Cfg) (budget : Nat) (c : Cmd) (a : Ans) :
+    ∀ (fuel i : Nat) (nak has : Bool) (acc : List (Att × Bool)) (w : World),
+    fuel + i = budget + 4 → (nak = true → i ≤ budget + 1) → i ≤ budget + 2 → acc.length + 1 = i →
+    (∀ e, (dep cfg budget c a fuel i nak has acc w).1 = .error e →
+        (∃ m, e = .tagCmd m) ∨ (cfg.fixT4 = false ∧ ∃ f, e = Fault.exc f))
+    ∧ (Benign w → Benign (dep cfg budget c a fuel i nak has acc w).2)
+    ∧ ∃ more, (dep cfg budget c a fuel i nak has acc w).2.log = w.log ++ [⟨c, acc ++ more⟩]
+        ∧ acc.length + more.length ≤ budget + 2 := by
+  intro fuel
+  induction fuel with
+  | zero => intro i nak has acc w h1 _ h3 _; omega
+  | succ fuel ih =>
+    intro i nak has acc w h1 h2 h3 h4
+    unfold dep
+    generalize hp : nextAtt w = p
+    obtain ⟨att, w1⟩ := p
+    have hl : w1.log = w.log := by have := nextAtt_log w; rw [hp] at this; exact this
+    have hb1 : Benign w → Benign w1 := fun hb => (benign_next hp hb).1
+    -- the continuation after an error that is answered with R(NAK)
+    have cont : ∀ (has' : Bool) (x : Att × Bool) (w2 : World), w2.log = w.log → (Benign w → Benign w2) → i ≤ budget →
+        (∀ e, (dep cfg budget c a fuel (i+1) true has' (acc ++ [x]) w2).1 = .error e →
+            (∃ m, e = .tagCmd m) ∨ (cfg.fixT4 = false ∧ ∃ f, e = Fault.exc f))
+        ∧ (Benign w → Benign (dep cfg budget c a fuel (i+1) true has' (acc ++ [x]) w2).2)
+        ∧ ∃ more, (dep cfg budget c a fuel (i+1) true has' (acc ++ [x]) w2).2.log = w.log ++ [⟨c, acc ++ more⟩]
+            ∧ acc.length + more.length ≤ budget + 2 := by
+      intro has' x w2 hl2 hb2 hi
+      obtain ⟨e1, e2, more, e3, e4⟩ := ih (i+1) true has' (acc ++ [x]) w2 (by omega) (by intro _; omega) (by omega) (by simp; omega)
+      refine ⟨e1, fun hb => e2 (hb2 hb), x :: more, ?_, ?_⟩
+      · rw [e3, hl2]; simp
+      · simp at e4 ⊢; omega
+    -- the end of the exchange with an exception `e`
+    have stop : ∀ (e0 : Exc) (x : Att × Bool) (w2 : World), w2.log = w.log → (Benign w → Benign w2) →
+        ((∃ m, e0 = .tagCmd m) ∨ (cfg.fixT4 = false ∧ ∃ f, e0 = Fault.exc f)) →
+        (∀ e, ((Except.error e0 : Py Unit), w2.push c (acc ++ [x])).1 = .error e →
+            (∃ m, e = .tagCmd m) ∨ (cfg.fixT4 = false ∧ ∃ f, e = Fault.exc f))
+        ∧ (Benign w → Benign ((Except.error e0 : Py Unit), w2.push c (acc ++ [x])).2)
+        ∧ ∃ more, ((Except.error e0 : Py Unit), w2.push c (acc ++ [x])).2.log = w.log ++ [⟨c, acc ++ more⟩]
+            ∧ acc.length + more.length ≤ budget + 2 := by
+      intro e0 x w2 hl2 hb2 he0
+      refine ⟨by intro e he; cases he; exact he0, fun hb => benign_push _ _ (hb2 hb), [x], by simp [hl2], by simp; omega⟩
+    have fin : ∀ (x : Att × Bool) (w2 : World), w2.log = w.log → (Benign w → Benign w2) →
+        (∀ e, (depDone c a w2 (acc ++ [x])).1 = .error e →
+            (∃ m, e = .tagCmd m) ∨ (cfg.fixT4 = false ∧ ∃ f, e = Fault.exc f))
+        ∧ (Benign w → Benign (depDone c a w2 (acc ++ [x])).2)
+        ∧ ∃ more, (depDone c a w2 (acc ++ [x])).2.log = w.log ++ [⟨c, acc ++ more⟩]
+            ∧ acc.length + more.length ≤ budget + 2 := by
+      intro x w2 hl2 hb2
+      obtain ⟨d1, d2⟩ := depDone_spec c a w2 (acc ++ [x])
+      refine ⟨fun e he => Or.inl (d1 e he), ?_, [x], ?_, by simp; omega⟩
+      · intro hb; rw [d2]; exact benign_push _ _ (hb2 hb)
+      · rw [d2]; simp [hl2]
+    have failcase : ∀ (f : Fault) (has' : Bool) (x : Att × Bool) (w2 : World), w2.log = w.log → (Benign w → Benign w2) →
+        (∀ e, (match depFail cfg budget i f with
+              | some e => ((Except.error e : Py Unit), w2.push c (acc ++ [x]))
+              | none => dep cfg budget c a fuel (i+1) true has' (acc ++ [x]) w2).1 = .error e →
+            (∃ m, e = .tagCmd m) ∨ (cfg.fixT4 = false ∧ ∃ f, e = Fault.exc f))
+        ∧ (Benign w → Benign (match depFail cfg budget i f with
+              | some e => ((Except.error e : Py Unit), w2.push c (acc ++ [x]))
+              | none => dep cfg budget c a fuel (i+1) true has' (acc ++ [x]) w2).2)
+        ∧ ∃ more, (match depFail cfg budget i f with
+              | some e => ((Except.error e : Py Unit), w2.push c (acc ++ [x]))
+              | none => dep cfg budget c a fuel (i+1) true has' (acc ++ [x]) w2).2.log = w.log ++ [⟨c, acc ++ more⟩]
+            ∧ acc.length + more.length ≤ budget + 2 := by
+      intro f has' x w2 hl2 hb2
+      rcases depFail_cases cfg budget i f with ⟨h, hi, _⟩ | ⟨m, h⟩ | ⟨hc, h⟩
+      · rw [h]; exact cont has' x w2 hl2 hb2 hi
+      · rw [h]; exact stop _ x w2 hl2 hb2 (Or.inl ⟨m, rfl⟩)
+      · rw [h]; exact stop _ x w2 hl2 hb2 (Or.inr ⟨hc, f, rfl⟩)
+    cases att with
+    | flt f r =>
+      simp only []
+      exact failcase f _ _ _ (by simp [hl]) (fun hb => benign_ite _ _ _ (hb1 hb))
+    | ans =>
       simp only []
       split
-      · rename_i n _; exact iherr () n w' herr hw'
-      · simp [Documented, hm]
-
-theorem polProg_clean (S) (pol : Pol) (next : Unit → Prog) (hpol : PolClean S pol) (hn : Clean S (next ())) :
-    Clean S (polProg pol next ()) := by
-  cases pol <;> simp_all [polProg, Clean, PolClean]
-
-theorem chain_clean (S : PrimKind → Prop) (p : Prim) (ct : Catch) (pol : Pol)
-    (hp : S p.kind) (hb : 0 < p.budget) (hb3 : p.budget ≤ 3) (hpol : PolClean S pol) :
-    ∀ (ss : List Step) (fin : Unit → Prog), Clean S (fin ()) → Clean S (chain Cfg.repaired p ct pol ss fin) := by
-  intro ss
-  induction ss with
-  | nil => intro fin h; simpa [chain] using h
-  | cons s ss ih =>
-    intro fin h
-    have hn := ih fin h
-    unfold chain
-    simp only []
-    split
-    · rename_i hc
-      have h12 : S .t12 := by rw [← hc.2]; exact hp
-      refine ⟨h12, by decide, by decide, ?_, ?_⟩
-      · cases pol <;> simp_all [polProg, Clean, PolClean]
-      · refine ⟨hn, ?_, ?_⟩ <;> simpa [Cfg.repaired] using polProg_clean S pol _ hpol hn
-    · exact ⟨hp, hb, hb3, hn, polProg_clean S pol _ hpol hn⟩
-
-/-! ## log invariant: answered attempts are last -/
-
-def LogOK (log : List Inv) : Prop := ∀ inv ∈ log, InvOK 3 inv.atts
-
-theorem prim_log (cfg : Cfg) (p : Prim) (c : Cmd) (a : Ans) (w : World) (hk : LoopKind p.kind) (hb3 : p.budget ≤ 3)
-    (hw : LogOK w.log) : LogOK (prim cfg p c a w).2.log := by
-  have key : ∀ k, LogOK (loop cfg k p.idm c a p.budget none [] w).2.log := by
-    intro k
-    obtain ⟨f, t, h1, h2, h3, h4⟩ := loop_log cfg k p.idm c a p.budget none [] w
-    rw [h1]
-    intro inv hm
-    rcases List.mem_append.mp hm with h | h
-    · exact hw inv h
-    · simp at h; subst h
-      exact ⟨f, t, by simp, h2, h3, by omega⟩
-  unfold prim
-  rcases hk with h | h <;> rw [h] <;> exact key _
-
-theorem run_log (cfg : Cfg) (S : PrimKind → Prop) (hS : ∀ k, S k → LoopKind k) :
-    ∀ (P : Prog) (cur : Int) (w : World), Clean S P → LogOK w.log → LogOK (run cfg P cur w).2.log := by
-  intro P
-  induction P with
-  | ret v => intro cur w _ h; simpa [run] using h
-  | crash e => intro cur w _ h; simpa [run] using h
-  | reraise => intro cur w _ h; simpa [run] using h
-  | caseErr z n p ihz ihn ihp =>
-    intro cur w hc hw
-    obtain ⟨hz, hn, hp⟩ := hc
-    unfold run
-    split
-    · exact ihz () cur w hz hw
-    · split
-      · exact ihn () cur w hn hw
-      · exact ihp () cur w hp hw
-  | call p c a ct ok err ihok iherr =>
-    intro cur w hc hw
-    obtain ⟨hk, _, hb3, hok, herr⟩ := hc
-    have hl := prim_log cfg p c a w (hS _ hk) hb3 hw
-    unfold run
-    generalize hr : prim cfg p c a w = r at hl
-    obtain ⟨res, w'⟩ := r
-    cases res with
-    | ok u => exact ihok () cur w' hok hl
-    | error e =>
+      · exact failcase .timeout _ _ _ hl hb1
+      · split
+        · split
+          · exact fin _ _ hl hb1
+          · rename_i hn _
+            obtain ⟨e1, e2, more, e3, e4⟩ := ih (i+1) false has (acc ++ [(.ans, false)]) w1 (by omega)
+              (by intro h; cases h) (by have := h2 hn; omega) (by simp; omega)
+            refine ⟨e1, fun hb => e2 (hb1 hb), (.ans, false) :: more, ?_, ?_⟩
+            · rw [e3, hl]; simp
+            · simp at e4 ⊢; omega
+        · exact fin _ _ (by simp [hl]) (fun hb => benign_exec _ _ (hb1 hb))
+    | short s =>
       simp only []
       split
-      · rename_i n _; exact iherr () n w' herr hl
-      · exact hl
+      · exact failcase .timeout _ _ _ hl hb1
+      · split
+        · split
+          · exact fin _ _ hl hb1
+          · rename_i hn _
+            obtain ⟨e1, e2, more, e3, e4⟩ := ih (i+1) false has (acc ++ [(.short s, false)]) w1 (by omega)
+              (by intro h; cases h) (by have := h2 hn; omega) (by simp; omega)
+            refine ⟨e1, fun hb => e2 (hb1 hb), (.short s, false) :: more, ?_, ?_⟩
+            · rw [e3, hl]; simp
+            · simp at e4 ⊢; omega
+        · exact fin _ _ (by simp [hl]) (fun hb => benign_exec _ _ (hb1 hb))
 
-end NfcVerif.Retry
-
-/-! ## the programs of the operations are clean -/
-namespace NfcVerif.Retry
-
-theorem fixF17_rep : Cfg.repaired.fixF17 = true := rfl
-
-macro "clean_tac" : tactic => `(tactic| repeat' (first
-  | exact trivial
-  | exact Or.inl rfl
-  | exact Or.inr rfl
-  | exact rfl
-  | decide
-  | apply chain_clean
-  | (show Clean _ _; dsimp only [fin])
-  ))
-
-theorem prog_clean (fam op : String) (l : Phases) (v : Val) (nret : Nat) (P : Prog)
-    (h : prog Cfg.repaired fam op l v nret = some P) (h4 : fam ≠ "t4") : Clean LoopKind P := by
-  unfold prog at h
-  simp only [fixF17_rep, if_true] at h
-  split at h <;> first
-    | exact absurd rfl h4
-    | (cases h; clean_tac)
-
-
-end NfcVerif.Retry
-
-namespace NfcVerif.Retry
-
-theorem prog_clean_t3 (fam op : String) (l : Phases) (v : Val) (nret : Nat) (P : Prog)
-    (h : prog Cfg.repaired fam op l v nret = some P) (hf : fam = "t3" ∨ fam = "t3std" ∨ fam = "lite") :
-    Clean (fun k => k = .t3) P := by
-  unfold prog at h
-  simp only [fixF17_rep, if_true] at h
-  split at h <;> first
-    | (exfalso; revert hf; decide)
-    | (cases h; clean_tac)
-
-section t3format
-variable (S : PrimKind → Prop) (h3 : S .t3) (cfg : Cfg) (t : T3Tag)
-include h3
-
-theorem t3Wipe_clean : ∀ n, Clean S (t3Wipe cfg t n) := by
-  intro n
-  induction n with
-  | zero => exact trivial
-  | succ n ih => unfold t3Wipe; exact ⟨h3, by decide, by decide, ih, trivial⟩
-
-theorem t3Nbw_clean (wipe : Bool) (nmaxb : Nat) : ∀ fuel nbw, Clean S (t3Nbw cfg t wipe nmaxb fuel nbw) := by
+/-- a persisting timeout / transmission error: frames `i .. budget+1` all fail with class `f` -/
+theorem dep_exhausted (cfg : Cfg) (budget : Nat) (c : Cmd) (a : Ans) (f : Fault) (e : Int)
+    (hf : (f = .timeout ∧ e = 0) ∨ (f = .transmission ∧ e = -1)) :
+    ∀ (fuel i : Nat) (nak has : Bool) (acc : List (Att × Bool)) (w : World),
+    fuel + i = budget + 4 → i ≤ budget + 1 → startsWith f (budget + 2 - i) w.script →
+    (dep cfg budget c a fuel i nak has acc w).1 = .error (.tagCmd e) := by
   intro fuel
   induction fuel with
-  | zero => intro _; exact trivial
+  | zero => intro i _ _ _ _ h1 h2 _; omega
   | succ fuel ih =>
-    intro nbw
-    have hattr : Clean S (.call (t3p true) (wrTok 0 1) .ok .nothing
-        (fun _ => if wipe then t3Wipe cfg t nmaxb else .ret .true_) (fun _ => .reraise)) := by
-      refine ⟨h3, by decide, by decide, ?_, trivial⟩
-      show Clean S (if wipe = true then _ else _)
-      split
-      · exact t3Wipe_clean S h3 cfg t nmaxb
-      · exact trivial
-    unfold t3Nbw
-    simp only []
-    split
-    · exact hattr
-    · exact ⟨h3, by decide, by decide, ih _, hattr⟩
-
-theorem t3Nbr_clean (wipe : Bool) (nmaxb : Nat) : ∀ fuel nbr, Clean S (t3Nbr cfg t wipe nmaxb fuel nbr) := by
-  intro fuel
-  induction fuel with
-  | zero => intro _; exact trivial
-  | succ fuel ih =>
-    intro nbr
-    have hafter : Clean S (.call (t3p true) (rdTok 0 1) .ok .nothing
-        (fun _ => t3Nbw cfg t wipe nmaxb 14 1) (fun _ => .reraise)) :=
-      ⟨h3, by decide, by decide, t3Nbw_clean S h3 cfg t wipe nmaxb 14 1, trivial⟩
-    unfold t3Nbr
-    simp only []
-    split
-    · exact hafter
-    · exact ⟨h3, by decide, by decide, ih _, hafter⟩
-
-theorem t3Search_clean (wipe : Bool) : ∀ fuel lo hi, Clean S (t3Search cfg t wipe fuel lo hi) := by
-  intro fuel
-  induction fuel with
-  | zero => intro lo _; unfold t3Search; exact t3Nbr_clean S h3 cfg t wipe lo 16 1
-  | succ fuel ih =>
-    intro lo hi
-    unfold t3Search
-    split
-    · exact ⟨h3, by decide, by decide, ih _ _, ih _ _⟩
-    · exact t3Nbr_clean S h3 cfg t wipe lo 16 1
-
-theorem t3Format_clean (wipe : Bool) : Clean S (t3Format cfg t wipe) :=
-  ⟨h3, by decide, by decide, t3Search_clean S h3 cfg t wipe 17 0 0x10000, trivial⟩
-end t3format
+    intro i nak has acc w h1 h2 hs
+    have hn : budget + 2 - i = (budget + 1 - i) + 1 := by omega
+    rw [hn] at hs
+    unfold dep
+    cases hsc : w.script with
+    | nil => rw [hsc] at hs; exact absurd hs (by simp [startsWith])
+    | cons x rest =>
+      rw [hsc] at hs
+      cases x with
+      | ans => exact absurd hs (by simp [startsWith])
+      | short s => exact absurd hs (by simp [startsWith])
+      | flt g r =>
+        obtain ⟨hg, hrest⟩ := hs
+        subst hg
+        have : nextAtt w = (.flt g r, { w with script := rest }) := by simp [nextAtt, hsc]
+        rw [this]
+        simp only []
+        by_cases hi : i ≤ budget
+        · have hd : depFail cfg budget i g = none := by
+            rcases hf with ⟨h, _⟩ | ⟨h, _⟩ <;> subst h <;> simp [depFail, hi]
+          rw [hd]
+          simp only []
+          apply ih (i+1) true _ _ _ (by omega) (by omega)
+          have : budget + 2 - (i + 1) = budget + 1 - i := by omega
+          rw [this]
+          split <;> simp [World.exec, World.apply] <;> (try split) <;> exact hrest
+        · have hd : depFail cfg budget i g = some (.tagCmd e) := by
+            rcases hf with ⟨h, he⟩ | ⟨h, he⟩ <;> subst h <;> subst he <;> simp [depFail, hi]
+          rw [hd]
 
 end NfcVerif.Retry
